@@ -219,6 +219,7 @@ func (p *Program) verifyFunction(name string, tier string, prop string, sink fun
 				}
 			}
 		}
+		x.applyInstances(s, fnApplies(fc))
 		for _, cl := range fc.clauses("let") {
 			env := x.specEnvFor(s, "let")
 			v, err := env.evalVal(cl.Expr)
@@ -386,6 +387,7 @@ func (x *Exec) atReturn(s *State, f *ssa.Function, fc, fieldC *FuncContract, arg
 	}
 	pos := f.Pos()
 	if fc != nil {
+		x.applyInstancesEnv(s, fnApplies(fc), func() *specEnv { e := x.specEnvFor(s, "ensures"); bindResults(e); return e })
 		for i, cl := range fc.clauses("ensures") {
 			env := x.specEnvFor(s, "ensures")
 			bindResults(env)
@@ -483,4 +485,14 @@ func (x *Exec) checkFreshInvs(s *State, f *ssa.Function, pos token.Pos) {
 		}
 		x.oblige(s, "inv-established", typeStr(rec.t)+"@"+rec.site, x.invTerm(s, rec.ref, rec.t), pos, nil)
 	}
+}
+
+func fnApplies(fc *FuncContract) []*Clause {
+	var out []*Clause
+	for _, c := range fc.Clauses {
+		if c.Kind == "apply" && c.Loop == -2 {
+			out = append(out, c)
+		}
+	}
+	return out
 }
